@@ -48,7 +48,21 @@ fn main() {
         // configuration says so): a skip belongs to its scene's projection and must not touch any other scene
         let with_skips = !heavy && rng.chance(0.35);
         let h = HistOpts { len: if cli.small { 8 } else if heavy { 10 + rng.usize(7) } else { 30 + rng.usize(61) }, lifecycle_ops: with_skips, clear_wasted: false, auto_waste_ops: false, batches: kind.is_batch(), empty_calls: true };
-        let ops = gen_history(&mut rng, &w, &h);
+        let mut ops = gen_history(&mut rng, &w, &h);
+        // 40% of the histories use wide scene ids that agree in their low 32 bits ((camera << 32) | stream): scene s becomes
+        // ((s + 1) << 32) | 5
+        let wide_scenes = rng.chance(0.4);
+        let sid = |s: u64| if wide_scenes { ((s + 1) << 32) | 5 } else { s };
+        if wide_scenes {
+            rep.count("histories_with_wide_scene_ids(equal low 32 bits)");
+            for op in ops.iter_mut() {
+                match op {
+                    Op::Predict { scene, .. } | Op::Skip { scene, .. } => *scene = sid(*scene),
+                    Op::Batch(b) => b.iter_mut().for_each(|(s, _)| *s = sid(*s)),
+                    _ => {}
+                }
+            }
+        }
         rep.eval();
         // interleaved run with pre-call snapshots
         let mut trk = AnyTracker::new(&cfg);
@@ -105,7 +119,7 @@ fn main() {
                     }
                 }
                 Op::Skip { scene, n } => {
-                    let before: Vec<(u64, usize)> = (0..scenes as u64).map(|s| (s, trk.epoch(s))).collect();
+                    let before: Vec<(u64, usize)> = (0..scenes as u64).map(|s| (sid(s), trk.epoch(sid(s)))).collect();
                     trk.skip_epochs(*scene, *n);
                     rep.count("skips_in_interleaved_runs");
                     for (s, e) in before {
@@ -157,7 +171,7 @@ fn main() {
             continue;
         }
         // per-scene projection
-        for s in 0..scenes as u64 {
+        for s in (0..scenes as u64).map(sid) {
             let calls: Vec<&CallLog> = log.iter().filter(|c| c.scene == s).collect();
             if calls.is_empty() {
                 continue;
